@@ -876,6 +876,10 @@ func (r *raft) tickHeartbeat() {
 		// If current leader cannot transfer leadership in electionTimeout, it becomes leader again.
 		if r.state == StateLeader && r.leadTransferee != None {
 			r.abortLeaderTransfer()
+			// The proposal that leaves a joint configuration automatically is
+			// dropped while a transfer is in progress (see appliedTo). Nothing
+			// else retries it if no further entry is applied, so do it now.
+			r.appliedTo(r.raftLog.applied, 0 /* size */)
 		}
 	}
 
@@ -1646,6 +1650,11 @@ func stepLeader(r *raft, m *pb.Message) error {
 		}
 		if leadTransferee == r.id {
 			r.logger.Debugf("%x is already leader. Ignored transferring leadership to self", r.id)
+			if lastLeadTransferee != None {
+				// The aborted transfer may have blocked the automatic leave of a
+				// joint configuration (see tickHeartbeat).
+				r.appliedTo(r.raftLog.applied, 0 /* size */)
+			}
 			return nil
 		}
 		// Transfer leadership to third party.
